@@ -11,6 +11,7 @@ package main
 
 import (
 	"bytes"
+	"crypto/sha256"
 	"flag"
 	"fmt"
 	"go/ast"
@@ -27,10 +28,10 @@ import (
 )
 
 var (
-	repo   = flag.String("repo", "/repo", "repository root")
-	out    = flag.String("out", "/verif/lean/Iota/Gen", "output directory")
+	repo      = flag.String("repo", "/repo", "repository root")
+	out       = flag.String("out", "/verif/lean/Iota/Gen", "output directory")
 	expectOut = flag.String("expect", "", "write the snapshot of recorded source texts to this Lean file")
-	modDir = flag.String("iotago", "", "directory of github.com/iotaledger/iota.go (default: module cache, version from go.mod)")
+	modDir    = flag.String("iotago", "", "directory of github.com/iotaledger/iota.go (default: module cache, version from go.mod)")
 )
 
 func die(format string, a ...interface{}) {
@@ -177,16 +178,16 @@ func iotaGoDir() string {
 // ---------------------------------------------------------------- constant evaluation
 
 var stdConsts = map[string]constant.Value{
-	"math.MinInt8":      constant.MakeInt64(-128),
-	"math.MaxInt8":      constant.MakeInt64(127),
-	"math.MaxUint64":    constant.MakeUint64(^uint64(0)),
-	"bits.UintSize":     constant.MakeInt64(64),
-	"sha512.Size":       constant.MakeInt64(64),
-	"sha256.Size":       constant.MakeInt64(32),
-	"blake2b.Size256":   constant.MakeInt64(32),
-	"blake2b.Size":      constant.MakeInt64(64),
-	"ed25519.SeedSize":  constant.MakeInt64(32),
-	"bct.MaxBatchSize":  constant.MakeInt64(64),
+	"math.MinInt8":        constant.MakeInt64(-128),
+	"math.MaxInt8":        constant.MakeInt64(127),
+	"math.MaxUint64":      constant.MakeUint64(^uint64(0)),
+	"bits.UintSize":       constant.MakeInt64(64),
+	"sha512.Size":         constant.MakeInt64(64),
+	"sha256.Size":         constant.MakeInt64(32),
+	"blake2b.Size256":     constant.MakeInt64(32),
+	"blake2b.Size":        constant.MakeInt64(64),
+	"ed25519.SeedSize":    constant.MakeInt64(32),
+	"bct.MaxBatchSize":    constant.MakeInt64(64),
 	"curl.NumberOfRounds": constant.MakeInt64(81),
 }
 
@@ -847,6 +848,7 @@ func (g *genFile) raw(s string) { g.b.WriteString(s) }
 func (g *genFile) src(p *pkg, names ...string) {
 	for _, name := range names {
 		fd := p.method(name)
+		pinnedFns[fd] = true
 		fd2 := *fd
 		fd2.Doc = nil
 		txt := normWS(stripComments(p.src(&fd2)))
@@ -857,6 +859,43 @@ func (g *genFile) src(p *pkg, names ...string) {
 }
 
 var expect [][2]string
+
+// functions already recorded one by one through src
+var pinnedFns = map[*ast.FuncDecl]bool{}
+
+// rest records everything ELSE a package declares — imports, constants, types, variables and the functions not
+// recorded by src — for all its non-test files except the verification hooks (*_verif.go), in file order, as
+// the Lean string `rest_<label>`. Together with src nothing in the package can change without a Tie theorem
+// noticing. Call it after the src calls for the package.
+func (g *genFile) rest(p *pkg, label string) {
+	var parts []string
+	for _, f := range p.sortedFiles() {
+		if strings.HasSuffix(f, "_test.go") || strings.HasSuffix(f, "_verif.go") {
+			continue
+		}
+		parts = append(parts, "FILE "+filepath.Base(f)+" ["+buildConstraint(filepath.Join(p.dir, filepath.Base(f)))+"]")
+		for _, d := range p.files[f].Decls {
+			if fd, ok := d.(*ast.FuncDecl); ok {
+				if pinnedFns[fd] {
+					continue
+				}
+				fd2 := *fd
+				fd2.Doc = nil
+				parts = append(parts, normWS(stripComments(p.src(&fd2))))
+				continue
+			}
+			t := normWS(stripComments(p.src(d)))
+			if len(t) > 4000 { // large tables (the word lists) are tied separately; here by digest
+				t = fmt.Sprintf("<%d characters, sha256 %x>", len(t), sha256.Sum256([]byte(t)))
+			}
+			parts = append(parts, t)
+		}
+	}
+	txt := strings.Join(parts, " ;; ")
+	lname := "rest_" + label
+	fmt.Fprintf(&g.b, "def %s : String := %s\n", lname, leanString(txt))
+	expect = append(expect, [2]string{g.name + "." + lname, leanString(txt)})
+}
 
 func leanString(s string) string {
 	var b strings.Builder
